@@ -1,0 +1,24 @@
+//go:build !verif
+// +build !verif
+
+package scipipe
+
+// Verification hooks are compiled out without -tags verif (see verif_on.go).
+
+func vhook(point string, kv ...interface{}) {}
+
+func vTask(t *Task) string { return "" }
+
+func vOuts(t *Task) string { return "" }
+
+func vNames(m map[string]WorkflowProcess) string { return "" }
+
+func vInName(pt *InPort) string { return "" }
+
+func vOutName(pt *OutPort) string { return "" }
+
+func vPInName(pt *InParamPort) string { return "" }
+
+func vPOutName(pt *OutParamPort) string { return "" }
+
+func vSinkUps(wf *Workflow) string { return "" }
